@@ -17,10 +17,10 @@ func init() {
 		Rule:      "BFS over action lists (B/F/M big steps, T tick, A absolute advance, D deadline-relative advance); successor = fresh store + replay + 1 action; canonical state dedup; outcome = sequence of (read kind, late?) observations",
 		Assume:    []string{"virtual clock: time.Now/Since/Ticker are the vtime shims", "a TTL-less Set writes a value the property does not constrain"},
 		Quick: []Scenario{
-			mk("edges", 16, "7", 60), mk("stall", 16, "7", 60), mk("rearm", 8, "8", 60), mk("huge", 4, "6", 60), mk("idle", 8, "6", 60), mk("loading", 8, "7", 60), load,
+			mk("edges", 16, "7", 60), mk("stall", 16, "7", 60), mk("rearm", 8, "8", 60), mk("huge", 4, "6", 60), mk("idle", 8, "6", 60), mk("refused", 8, "7", 60), mk("loading", 8, "7", 60), load,
 		},
 		Thorough: []Scenario{
-			mk("edges", 16, "10", 600), mk("stall", 16, "10", 600), mk("rearm", 16, "11", 600), mk("huge", 8, "8", 600), mk("idle", 16, "8", 600), mk("loading", 16, "10", 600), load,
+			mk("edges", 16, "10", 600), mk("stall", 16, "10", 600), mk("rearm", 16, "11", 600), mk("huge", 8, "8", 600), mk("idle", 16, "8", 600), mk("refused", 16, "9", 600), mk("loading", 16, "10", 600), load,
 		},
 	})
 }
